@@ -164,6 +164,42 @@ static void key_rows(const TFheGateBootstrappingParameterSet *gb, const std::str
     delete_gate_bootstrapping_secret_keyset(sk);
 }
 
+// ---------------------------------------------------------------- key-switching keys on their own: many rows, small digit layouts
+// lweCreateKeySwitchKey with a large source dimension and a tiny target dimension: hundreds of thousands of rows per layout,
+// including layouts with very few non-zero digits per source coefficient (t*(base-1) = 1, 2, 3), where any per-coefficient
+// treatment of the noise (recentring, reuse) becomes a gross effect. Also records the variance of the sum of the rows that
+// belong to one source coefficient: for fresh independent noise it is (rows per coefficient) * sigma^2.
+static void ks_rows_mode(int n_in, int n_out, double alpha) {
+    struct L { int t, bb; } layouts[] = {{1, 1}, {2, 1}, {3, 1}, {1, 2}, {2, 2}, {8, 2}, {4, 3}, {2, 5}};
+    for (auto &ly: layouts) {
+        int t = ly.t, bb = ly.bb, base = 1 << bb, B = t * (base - 1);
+        int ni = n_in / (B > 8 ? 1 : 1);
+        LweParams *Pin = new_LweParams(ni, alpha, 0.25), *Pout = new_LweParams(n_out, alpha, 0.25);
+        LweKey *kin = new_LweKey(Pin), *kout = new_LweKey(Pout); lweKeyGen(kin); lweKeyGen(kout);
+        LweKeySwitchKey *ks = new_LweKeySwitchKey(ni, t, bb, Pout);
+        VH_OP("lweCreateKeySwitchKey:n_in=%d:t=%d:basebit=%d", ni, t, bb);
+        lweCreateKeySwitchKey(ks, kin, kout);
+        Mom m, group; uint64_t bad_h0 = 0;
+        for (int i = 0; i < ni; i++) {
+            double gs = 0;
+            for (int j = 0; j < t; j++) for (int h = 0; h < base; h++) {
+                const LweSample *r = &ks->ks[i][j][h];
+                if (h == 0) { if (ref_lwe_phase(r, kout->key, n_out) != 0) bad_h0++; continue; }
+                U msg = (U) kin->key[i] * (U) h * ((U) 1 << (32 - (j + 1) * bb));
+                double e = (double) (int32_t) (ref_lwe_phase(r, kout->key, n_out) - msg);
+                m.add(e); gs += e; out.evaluations++;
+            }
+            group.add(gs);
+        }
+        if (bad_h0) out.viol("noise:ks-h0-row-not-an-encryption-of-zero", J().i("t", t).i("basebit", bb).u("rows", bad_h0));
+        char cell[96]; snprintf(cell, sizeof cell, "ks-key:t%d.bb%d:n_in=%d", t, bb, ni);
+        emit_mom(cell, m, alpha, "trunc-gaussian-recentred", 0, J().i("t", t).i("basebit", bb).i("rows_per_source_coefficient", B)
+                .d("group_sum_second_moment", group.s2 / group.n).u("groups", group.n));
+        delete_LweKeySwitchKey(ks); delete_LweKey(kin); delete_LweKey(kout); delete_LweParams(Pin); delete_LweParams(Pout);
+    }
+    out.sample(J().s("mode", "ks-rows").i("n_in", n_in).i("n_out", n_out).d("alpha", alpha).s("layouts(t,basebit)", "(1,1),(2,1),(3,1),(1,2),(2,2),(8,2),(4,3),(2,5)"));
+}
+
 // ---------------------------------------------------------------- seeding
 static std::string keyset_bytes(const TFheGateBootstrappingParameterSet *gb, uint64_t seed, std::string *ct) {
     seed_library(seed);
@@ -234,7 +270,8 @@ int main(int argc, char **argv) {
         if (lam) { TFheGateBootstrappingParameterSet *p = default_params(lam); char cfg[64]; snprintf(cfg, sizeof cfg, "default%d:seed%llu", lam <= 80 ? 80 : 128, (unsigned long long) (seed + args.i("shard", 0)));
             key_rows(p, cfg, args.i("coefs", 128), args.i("threads", 8)); delete_gate_bootstrapping_parameters(p); }
         else { PSet ps(40, 1024, 2, 2, 9, 5, 3, ldexp(1., -18), ldexp(1., -28)); key_rows(ps.gb, "custom-n40-k2:seed" + std::to_string(seed), 1024, args.i("threads", 8)); }
-    } else if (mode == "seeding") seeding();
+    } else if (mode == "ksrows") ks_rows_mode(args.i("n_in", 16384), args.i("n_out", 8), args.d("alpha", ldexp(1., -15)));
+    else if (mode == "seeding") seeding();
     out.finish();
     return 0;
 }
